@@ -2208,4 +2208,38 @@ M("e11-quiet-clone-then-drop", "C14", "quiet", "src/parse.rs",
                         ExprEnum::Op(Op::LessThan, Box::new(lhs), Box::new(y)),
                         meta,
                     );""", "behaviour-preserving: the operand is cloned and the original dropped")
+REVERT("revert-for-iteration-scope", "C14", "fire E13", "3e3a2e6", "pre-fix tree: one scope for all iterations of a for loop")
+REVERT("revert-callee-environment", "C14", "fire E14", "ead44eb", "pre-fix tree: callee bodies lowered on the caller's environment; entry parameters share the scope of the consts")
+M("e14-callee-on-copy-of-caller-env", "C14", "fire E14", "src/compile.rs",
+  """                let mut env = env.outermost_scope();
+                env.push();
+                for (var, binding) in bindings {""",
+  """                let mut env = env.clone();
+                env.push();
+                for (var, binding) in bindings {""", "the callee is lowered on a copy of the whole caller environment: its mutations are invisible, but the caller's names still shadow the consts")
+M("e13-scope-per-loop-not-iteration", "C14", "fire E13 E2", "src/compile.rs",
+  """                let mut i = 0;
+                while i < array.len() {
+                    // the bindings of an iteration end with the iteration:
+                    env.push();
+                    let binding = &array[i..i + elem_in_bits];""",
+  """                let mut i = 0;
+                env.push();
+                while i < array.len() {
+                    env.pop();
+                    env.push();
+                    let binding = &array[i..i + elem_in_bits];""", "scope opened before the loop and re-opened at the start of every iteration: push / pop no longer pair up")
+M("e14-quiet-params-scope-before-consts", "C14", "quiet", "src/compile.rs",
+  """        env.push();
+        for (param, wires) in params {
+            env.let_in_current_scope(param, wires);
+        }
+        let output_gates = compile_block(&fn_def.body, self, &mut env, &mut circuit);
+        env.pop();""",
+  """        env.push();
+        for (param, wires) in params.into_iter().rev() {
+            env.let_in_current_scope(param, wires);
+        }
+        let output_gates = compile_block(&fn_def.body, self, &mut env, &mut circuit);
+        env.pop();""", "behaviour-preserving: parameters bound in reverse order (distinct names)")
 
